@@ -22,10 +22,14 @@ pub struct Case {
     pub dport: u16,
     pub tcp: bool,
     pub call: RpcCall,
+    /// earlier datagrams from other source ports: calls cut short at the given position (history
+    /// must not matter: the judged call is answered as if it were alone)
+    #[serde(default)]
+    pub pre: Vec<(RpcCall, u16)>,
 }
 
 pub fn case_strategy() -> impl Strategy<Value = Case> {
-    (scenario_quiet(Fam::Any), port(), port(), any::<bool>(), rpc_call()).prop_map(|(scn, sport, dport, tcp, call)| Case { scn, sport, dport, tcp, call })
+    (scenario_quiet(Fam::Any), port(), port(), any::<bool>(), rpc_call(), prop_oneof![3 => Just(vec![]), 1 => proptest::collection::vec((rpc_call(), any::<u16>()), 1..3)]).prop_map(|(scn, sport, dport, tcp, call, pre)| Case { scn, sport, dport, tcp, call, pre })
 }
 
 fn parse_uaddr(s: &str) -> Option<(IpAddr, u16)> {
@@ -134,6 +138,19 @@ pub fn check(c: &Case, st: &mut Stats) -> Check {
         super::c10::Divergence::None => {}
     }
     st.frames(if c.tcp { 2 } else { 1 });
+    for (i, (p, cut)) in c.pre.iter().enumerate() {
+        let mut m = p.msg();
+        let k = pick(*cut, m.len() + 1);
+        m.truncate(k);
+        let o = sut.frame(&crate::vf::codec::udp_frame(&c.scn.net, c.sport.wrapping_add(1 + i as u16), c.dport, &m));
+        if let Out::Panic(pn) = &o {
+            return Err(Failure::keyed(pn.key(), format!("panic on a truncated call: {} {}", pn.file, pn.msg)));
+        }
+        st.frames(1);
+    }
+    if !c.pre.is_empty() {
+        st.class("after-truncated-datagrams-from-other-ports");
+    }
     let app = app_exchange(&sut, &c.scn.net, c.tcp, c.sport, c.dport, &bytes)?;
     let call = &c.call;
     let pc = if call.program == 100000 { "portmap" } else { "other-program" };
@@ -146,6 +163,9 @@ pub fn check(c: &Case, st: &mut Stats) -> Check {
     }
     if !call.verf.is_empty() {
         st.class("non-empty-verifier");
+    }
+    if call.cred_flavor == 1 {
+        st.class("auth-sys-credential");
     }
     st.nontrivial(&shape);
     st.nontrivial_hash(fnv(&bytes));
@@ -162,7 +182,7 @@ impl Prop for C16 {
         "C16"
     }
     fn rule(&self) -> &'static str {
-        "cases = ONC-RPC calls: arbitrary XID, RPC version low byte, program in 99840..100095 (100000 weighted), program version in {0..6, random u32, 104316}, procedure 0..255, credential flavour and length 0..64 (multiples of 4 and, tracked separately, other lengths with XDR padding), verifier length 0 and 1..32, optional argument bytes; over UDP and over a handshaken TCP flow (record mark with last-fragment bit), IPv4 and IPv6, arbitrary destination address and port. Calls inside a listed matcher divergence (C10: XID first byte shadowed) are excluded and counted. Oracle: own XDR reader: record mark (last-fragment bit, length = rest) over TCP, XID echoed, REPLY / MSG_ACCEPTED / null verifier, then by precedence PROG_MISMATCH(2,4) for versions outside 2..4, empty SUCCESS for procedure 0, GETPORT = contacted port, GETADDR / DUMP universal addresses = contacted address and port with a netid of the right IP family and a well-formed value-follows list, PROC_UNAVAIL, PROG_UNAVAIL; length multiple of 4, nothing left over. Non-trivial = every identified call; distinct by message hash and by (program class, version class, procedure class, transport, IP version)."
+        "cases = ONC-RPC calls: arbitrary XID, RPC version low byte, program in 99840..100095 (100000 weighted), program version in {0..6, random u32, 104316}, procedure 0..255, credential flavour and length 0..64 (multiples of 4 and, tracked separately, other lengths with XDR padding), verifier length 0..400, AUTH_SYS credential bodies (stamp, machine name, uid, gid, gids; consistent, with a machine-name length that disagrees with the bytes present, or cut short), optional argument bytes; optionally preceded by 1..2 calls cut short at an arbitrary byte, sent as datagrams from other source ports; over UDP and over a handshaken TCP flow (record mark with last-fragment bit), IPv4 and IPv6, arbitrary destination address and port. Calls inside a listed matcher divergence (C10: XID first byte shadowed) are excluded and counted. Oracle: own XDR reader: record mark (last-fragment bit, length = rest) over TCP, XID echoed, REPLY / MSG_ACCEPTED / null verifier, then by precedence PROG_MISMATCH(2,4) for versions outside 2..4, empty SUCCESS for procedure 0, GETPORT = contacted port, GETADDR / DUMP universal addresses = contacted address and port with a netid of the right IP family and a well-formed value-follows list, PROC_UNAVAIL, PROG_UNAVAIL; length multiple of 4, nothing left over. Non-trivial = every identified call; distinct by message hash and by (program class, version class, procedure class, transport, IP version)."
     }
     fn run(&self, ctx: &mut RunCtx) {
         let n = ctx.share(ctx.tier.n(800_000, 10_000_000));
